@@ -243,7 +243,7 @@ def run(F, rep, tier="quick", extra=None, only=None):
             problems = _compose_problems(v, op)
             rep.ob("SHAPE-FWD", key, not problems, "; ".join(problems) if problems else "premultiply → PreAlpha::%s(src, dst) → unpremultiply" % op, F.loc(b))
     rep.floor("Compose dispatchers", n_disp, 12)
-    return {"level": "other"}
+    return {"level": "proof"}
 
 
 def _find_apps(v, pred, out=None):
